@@ -148,6 +148,10 @@ def items(tier, seed):
     for algo in ["mrq", "td7", "ddpg", "td3", "td3_lap"]:
         out.append(dict(name=f"loop-{algo}-asym-noise0", kind="loop", algo=algo, box="asym", script="ccTccUcc", seed=seed, exploration_noise=0.0,
                         policy_scale=None, zero_noise=True))
+    # target smoothing as the routine wires it: noise_clip below the routine's target-noise level, smoothed batches observed inside the run
+    for algo in ["td3", "td3_lap"]:
+        out.append(dict(name=f"loop-{algo}-asym-clip", kind="loop", algo=algo, box="asym", script="ccTccUcc", seed=seed, exploration_noise=0.1,
+                        policy_scale=None, target_clip=0.05))
     pets_boxes = ["asym1", "nondyadic1", "tiny1", "perdim2"] + (["large1"] if thorough else [])
     pets_scripts = ["cccccTcc"] + (["cccccccc"] if thorough else [])
     for b, s, rd in itertools.product(pets_boxes, pets_scripts, [1, -1, 0]):
@@ -693,8 +697,46 @@ def work_loop(item, col):
         decoy = gym.spaces.Box(np.asarray(lo_l, dtype=np.float32) - 9.0, np.asarray(hi_l, dtype=np.float32) + 11.0, dtype=np.float32)
         ddpg.make_sample_actions(decoy, cfg["exploration_noise"])
         td3.make_sample_target_actions(decoy, cfg["exploration_noise"], 0.5)
-    env, result, kw = run_loop(algo, item["script"], cfg)
+    smoothed = []
+    spied = None
+    if item.get("target_clip") is not None:
+        import importlib
+
+        cfg["noise_clip"] = item["target_clip"]
+        spied = importlib.import_module(f"rl_blox.algorithm.{algo}")
+        real_factory = spied.make_sample_target_actions
+
+        def spy_factory(*a, **k):
+            real = real_factory(*a, **k)
+
+            def sampler(policy, obs, key):
+                res = real(policy, obs, key)
+                jax.debug.callback(lambda b_, r_: smoothed.append((np.asarray(b_), np.asarray(r_))), policy(obs), res)
+                return res
+
+            return sampler
+
+        spied.make_sample_target_actions = spy_factory
+    try:
+        env, result, kw = run_loop(algo, item["script"], cfg)
+    finally:
+        if spied is not None:
+            spied.make_sample_target_actions = real_factory
     lo32, hi32 = env.action_space.low, env.action_space.high
+    if spied is not None:
+        half = 0.5 * (hi32.astype(np.float64) - lo32.astype(np.float64))
+        lim = kw["noise_clip"] * half
+        if not smoothed:
+            col.cap(f"{item['name']}: no smoothed target batch observed")
+        for base_a, sm in smoothed:
+            col.tick(1)
+            col.outcome(f"loop_{algo}_smoothed_target_batches")
+            d = np.abs(sm.astype(np.float64) - base_a.astype(np.float64))
+            if (d > lim * (1 + 1e-5) + 1e-6 * half).any():
+                col.violation(SIG.format(entry, K_NOISE), dict(routine=entry, box=item["box"], noise_clip=kw["noise_clip"], max_over_half_range=float((d / half).max()),
+                                                               where="smoothed target actions computed inside the training loop"))
+            if (d > 0.5 * lim).any():
+                col.outcome(f"loop_{algo}_smoothed_batches_with_noise_above_half_the_clip")
     allow = ULP_ALLOW if pets else 0
     steps = [e for e in env.log if e[0] == "step"]
     if len(steps) != len(item["script"]):
